@@ -126,7 +126,55 @@ def handle (op _opts payload : String) : String :=
   else "bad-request"
 end FO
 
+/-! ### WFN sections: `x<title>;zn:x:y:z,…;c:t:<m@e>,…;occ:energy:<m@e>/<m@e>/…,…;<energy|nan>;<virial|nan>;<spin i/i/…|->`
+(zero-based centre and type of every primitive); loaded:
+`x<title>;atoms;centres i/i/…;types;exponents;number:occ:energy:coeffs,…;energy;virial;spin (or @)` -/
+namespace WF
+open Iodata.Fmt.WfnS
+
+def decFxN (s : String) : Option Fx := if s == "nan" then none else some (decFx s)
+def encFxN : Option Fx → String
+  | none => "nan"
+  | some x => encFx x
+def decAtom (s : String) : Atom :=
+  match s.splitOn ":" with
+  | [z, a, b, c] => ⟨decNat z, decFx a, decFx b, decFx c⟩
+  | _ => ⟨0, ⟨false, 0⟩, ⟨false, 0⟩, ⟨false, 0⟩⟩
+def encAtom (a : Atom) : String := ":".intercalate [toString a.zn, encFx a.x, encFx a.y, encFx a.z]
+def decPrim (s : String) : Nat × Nat × Sci :=
+  match s.splitOn ":" with
+  | [c, t, e] => (decNat c, decNat t, F.decSci e)
+  | _ => (0, 0, ⟨false, 0, 0⟩)
+def decMO (s : String) : MO :=
+  match s.splitOn ":" with
+  | [o, e, cs] => ⟨decFx o, decFx e, decList "/" F.decSci cs⟩
+  | _ => ⟨⟨false, 0⟩, ⟨false, 0⟩, []⟩
+def encLMO (m : LMO) : String := ":".intercalate [toString m.number, encFx m.occ, encFx m.energy, encList "/" F.encSci m.coeffs]
+
+def decObj (s : String) : Obj :=
+  match s.splitOn ";" with
+  | [t, ats, ps, ms, e, v, sp] =>
+    ⟨decStr t, decList "," decAtom ats, decList "," decPrim ps, decList "," decMO ms, decFxN e, decFxN v,
+     if sp == "-" then none else some (decList "/" decInt sp)⟩
+  | _ => ⟨[], [], [], [], none, none, none⟩
+def encInts (l : List Int) : String := encList "/" (fun (i : Int) => toString i) l
+def encLoaded (x : Loaded) : String :=
+  ";".intercalate [encStr x.title, encList "," encAtom x.atoms, encInts x.icenters, encInts x.types, encList "/" F.encSci x.exponents,
+    encList "," encLMO x.mos, encFxN x.energy, encFxN x.virial, encInts x.mospin]
+
+def handle (op _opts payload : String) : String :=
+  let L := Gen.LayoutsW.wfnL
+  let T := Gen.Layouts.tables
+  if op == "dump" then okHex (dump T L (decObj payload))
+  else if op == "load" then
+    match load T L (linesOfHex payload) with
+    | .ok o => "ok " ++ encLoaded o
+    | .error _ => "err LoadError"
+  else "bad-request"
+end WF
+
 def handle : List String → Option String
+  | ["fmtw", op, "wfn", opts, payload] => some (WF.handle op opts payload)
   | ["fmtw", op, "fchk", opts, payload] => some (FO.handle op opts payload)
   | ["fmtw", op, "poscar", opts, payload] => some (PO.handle op opts payload)
   | ["fmtw", op, "fcidump", opts, payload] => some (FC.handle op opts payload)
